@@ -21,7 +21,7 @@ Abort. (* pr_old_bound_iff *)
 (* 4. closed form of the peak from the third block on *)
 Goal forall rc wc x R k, 0 <= rc -> 0 <= wc -> 0 <= x -> 0 <= R -> (3 <= k)%nat ->
   pr_task_peak rc wc x R R true k
-  = Z.max (3 * R + x * rc + x) (Z.max (4 * R + x) (Z.max (5 * R) (R + R * wc))).
+  = Z.max (3 * R + x * rc + x) (Z.max (5 * R) (R + R * wc)).
 Abort. (* pr_peak_closed *)
 
 (* 5. reserved memory is added on top *)
